@@ -98,3 +98,12 @@ Example ex_not_enough :
   snd (frun (finit 2 0) [EAddShares [a; c]; ELoop None; EActivity c CORRUPT; EActivity a COMPLETE; ENoMoreShares; ELoop None; ELoop None; ELoop None])
   = [OStart c; OStart a; OFetchFailed NotEnoughSharesError]%N.
 Proof. vm_compute. reflexivity. Qed.
+
+(* latent: after an OVERDUE the fetcher can collect more than k blocks (k = 1 here, two
+   blocks handed over); CRSDecoder.decode insists on exactly k.  No Share emits OVERDUE
+   in this tree, so the node never sees it. *)
+Example ex_more_than_k_blocks_after_overdue :
+  let a := mk_share 0 0 0 1 in let b := mk_share 1 1 1 1 in
+  snd (frun (finit 1 0) [EAddShares [a; b]; ELoop None; EActivity a OVERDUE; ELoop None; EActivity a COMPLETE; EActivity b COMPLETE; ELoop None])
+  = [OStart a; OStart b; OProcessBlocks [(0, 0); (1, 1)]]%N.
+Proof. vm_compute. reflexivity. Qed.
